@@ -1198,7 +1198,7 @@ func (w *Writer) writeUncheckedStore(store ir.StmtStore) error {
 			return err
 		}
 		w.write(", ")
-		if err := w.writeExpression(store.Value); err != nil {
+		if err := w.writeStoredValue(store.Value); err != nil {
 			return err
 		}
 		w.write(", %smemory_order_relaxed);\n", Namespace)
@@ -1213,11 +1213,23 @@ func (w *Writer) writeUncheckedStore(store ir.StmtStore) error {
 		return err
 	}
 	w.write(" = ")
-	if err := w.writeExpression(store.Value); err != nil {
+	if err := w.writeStoredValue(store.Value); err != nil {
 		return err
 	}
 	w.write(";\n")
 	return nil
+}
+
+// writeStoredValue writes the value operand of a store. The ReadZeroSkipWrite
+// guard around the store covers the pointer chain only: an indexed access inside
+// the value (\`outp[k] = v[i]\`) still needs its own check, so the "already inside
+// a check" state does not extend to it.
+func (w *Writer) writeStoredValue(value ir.ExpressionHandle) error {
+	prev := w.insideRZSW
+	w.insideRZSW = false
+	err := w.writeExpression(value)
+	w.insideRZSW = prev
+	return err
 }
 
 // isAtomicPointer checks if an expression is a pointer to an atomic type.
